@@ -28,6 +28,84 @@ valid_case = generic.valid_case
 def cases(seed, tier):
     yield from generic.interruption_cases(ID, seed, tier, dev_faults=0.5, K=(12, 20))
     yield from generic.resume_window_cases(ID, seed, tier)
+    yield from replayed_failure_cases(seed, tier)
+
+
+def replayed_failure_cases(seed, tier):
+    """bluesky's own count(): a suspension strikes inside the event bundle (the rewind cancels the bundle), the
+    replay re-issues the trigger and that exposure fails; trigger_and_read drops its bundle - which is gone already -
+    and re-raises; a pause and resume land in the clean-up that follows.  The call ends with the device's failure
+    (FailedStatus), not with a complaint about the message sequence."""
+    import copy
+
+    from sim import gen
+    from sim.dsl import msg
+
+    rng = gen.rng_for(ID, seed, "replayed-failure")
+    specs = gen.gen_world(rng, motors=1, dets=2, flyers=0, p_async=0.0)
+    specs["sigS"] = {"kind": "signal", "initial": 0}
+    pg = gen.PlanGen(rng, specs)
+    S = pg.S
+    d1, d2 = pg.dets[0], pg.dets[1]
+    for dname in (d1, d2):
+        specs[dname]["trigger_delay"] = 0.01
+        specs[dname]["kind"] = "det"
+        specs[dname].pop("async", None)
+    plan = [{"op": "plan", "name": "count", "args": [{"devs": [d1, d2]}], "kw": {"num": 1, "delay": None}}]
+    for j in range(2 if tier == "quick" else 6):
+        c = {
+            "prop": ID,
+            "seed": seed,
+            "variant": f"replayed-trigger-fails-then-pause-{j}",
+            "sim": {"handle_cost": 0.0},
+            "re": {"call_returns_result": False, "record_interruptions": False},
+            "devices": copy.deepcopy(specs),
+            "suspenders": {"s0": {"cls": "SuspendBoolHigh", "signal": "sigS", "kwargs": {"sleep": rng.choice([0, 0.5])}}},
+            "script": [
+                {"do": "install_suspender", "sus": "s0"},
+                {
+                    "do": "call",
+                    "plan": plan,
+                    "main": True,
+                    # (message numbers of count([d1, d2], num=1): 9 = create, 10 = read d1, 11 = read d2; the pause is
+                    # swept over the messages that follow the release: replayed triggers, drop, close_run, unstage)
+                    "inject": [
+                        {"id": "t0", "at": {"msg": rng.choice([9, 10]), "plus": rng.choice([0, 1])}, "do": "trip", "args": {"signal": "sigS", "value": 1, "release_value": 0, "after": 0.3}},
+                        {"id": "p0", "at": {"msg": rng.randrange(16, 24), "plus": rng.choice([0, 1])}, "do": "pause"},
+                    ],
+                    "decisions": [{"do": "resume"}, {"do": "resume"}],
+                    "final": "resume",
+                },
+                {"do": "call", "plan": [msg(S, "null")], "tag": "followup-null"},
+            ],
+        }
+        c["devices"][d1]["faults"] = {"trigger#1": {"kind": "status_fail", "exc": "TimeoutError", "delay": 0.0}}
+        yield c
+    # ... and the plan is *outside* any bundle when the suspension strikes (in count's delay between two shots); the
+    # replay re-opens the shot's bundle and a read fails inside it.  The plan is past that bundle and will never close
+    # it; its clean-up (the final baseline reading of SupplementalData) opens a bundle of its own
+    for j in range(1 if tier == "quick" else 3):
+        c = {
+            "prop": ID,
+            "seed": seed,
+            "variant": f"replayed-read-fails-outside-bundle-{j}",
+            "sim": {"handle_cost": 0.0},
+            "re": {"call_returns_result": False, "record_interruptions": False, "preprocessors": [{"name": "SupplementalData", "baseline": [{"dev": pg.motors[0]}], "monitors": [], "flyers": []}]},
+            "devices": copy.deepcopy(specs),
+            "suspenders": {"s0": {"cls": "SuspendBoolHigh", "signal": "sigS", "kwargs": {"sleep": 0}}},
+            "script": [
+                {"do": "install_suspender", "sus": "s0"},
+                {
+                    "do": "call",
+                    "plan": [{"op": "plan", "name": "count", "args": [{"devs": [d1, d2]}], "kw": {"num": 2, "delay": 1.0}}],
+                    "main": True,
+                    "inject": [{"id": "t0", "at": {"time": rng.choice([0.3, 0.6])}, "do": "trip", "args": {"signal": "sigS", "value": 1, "release_value": 0, "after": 0.2}}],
+                },
+                {"do": "call", "plan": [msg(S, "null")], "tag": "followup-null"},
+            ],
+        }
+        c["devices"][d2]["faults"] = {"read#1": {"kind": "raise", "exc": "RuntimeError"}}
+        yield c
 
 
 EXPECTED = {"stop": "success", "abort": "abort", "halt": "abort", "failed_pause": "abort", "completed": "success"}
@@ -92,25 +170,6 @@ def classify(inv):
     return causes, faults_fired
 
 
-def cleanup_checkpoint_met_replayed_bundle(inv, failure):
-    """True when the last device failure before the failing call's end struck while the engine was executing cached
-    messages again (after a rewind) and the event bundle open at that moment had been opened by that replay."""
-    msgs = [e for e in inv.events if e.kind == "msg" and e.seq < failure.end.seq]
-    flt = [e for e in inv.events if e.seq < failure.end.seq and ((e.kind == "dev" and e.d.get("fault")) or (e.kind == "status" and not e.d["ok"]))]
-    if not flt or not msgs:
-        return False
-    f = flt[-1]
-    before = [m for m in msgs if m.seq < f.seq]
-    seen = set()
-    replayed = set()
-    for m in before:
-        if m.d["mid"] in seen:
-            replayed.add(m.seq)
-        seen.add(m.d["mid"])
-    bundle = [m for m in before if m.d["cmd"] in ("create", "save", "drop")]
-    return bool(bundle) and bundle[-1].d["cmd"] == "create" and bundle[-1].seq in replayed
-
-
 ALLOWED_FAILURES = ("Injected", "FailedStatus", "PlanError", "CallbackError")
 
 KNOWN_PREDICATES = {
@@ -139,12 +198,6 @@ def check(res):
         # ---- what was raised
         if failure is not None:
             exc = failure.exc or ""
-            if exc == "IllegalMessageSequence" and faults and "Cannot 'checkpoint' after 'create'" in failure.end.d["text"] and cleanup_checkpoint_met_replayed_bundle(inv, failure):
-                # the plan's own doing: its clean-up contains a checkpoint, and the device failure it is cleaning up after
-                # struck a message the engine was executing again after a rewind, inside an event bundle that the replay
-                # had opened (the plan, whose own position is past that bundle, cannot know and cannot drop it)
-                res.notes["cleanup_checkpoint_met_replayed_bundle"] = res.notes.get("cleanup_checkpoint_met_replayed_bundle", 0) + 1
-                continue
             if not exc.startswith(ALLOWED_FAILURES):
                 out.append(
                     V(
